@@ -162,6 +162,11 @@ def weight_forms(shp):
     if not (numel == 0 and len(shp) > 1):      # nested empty lists cannot carry a shape
         forms.append(('list', t.tolist(), t))
     forms.append(('patterned', PatternedTensor(t), t))
+    if numel:
+        # a Tensor whose dtype is not the default one, with values float32 cannot represent
+        t64 = (torch.arange(1., 1. + numel, dtype=torch.float64) / 10. + 2. ** -40).reshape(shp)
+        forms.append(('tensor-float64', t64, t64))
+        forms.append(('patterned-float64', PatternedTensor(t64.clone()), t64))
     if len(shp) >= 1 and numel:
         # a non-contiguous (transposed-storage) physical tensor
         tt = t.permute(*reversed(range(len(shp)))).contiguous().permute(*reversed(range(len(shp))))
@@ -282,8 +287,8 @@ def part_factor_eq(r, case):
 
 LABELS = {'e': ('A',), 'f': ('A', 'B'), 'g': ('B', 'A'), 'h': (), 'a2': ('A', 'A'), 'X': ('A',), 'c': ('C',)}
 NONTERMINAL = {'X'}
-DOMS = {'dA2': ('finite', (0, 1)), 'dA2copy': ('finite', (0, 1)), 'dB3': ('range', 3), 'dB2': ('finite', ('x', 'y'))}
-DOMKEY = {'dA2': ('finite', (0, 1)), 'dA2copy': ('finite', (0, 1)), 'dB3': ('range', 3), 'dB2': ('finite', ('x', 'y'))}
+DOMS = {'dA2': ('finite', (0, 1)), 'dA2copy': ('finite', (0, 1)), 'dB3': ('range', 3), 'dB2': ('finite', ('x', 'y')), 'dE0': ('finite', ()), 'dR0': ('range', 0)}
+DOMKEY = dict(DOMS)
 
 
 def mkdom(name):
@@ -304,7 +309,7 @@ def binding_ops():
     global _ops
     if _ops is None:
         ops = []
-        for nl, d in (('A', 'dA2'), ('A', 'dB3'), ('B', 'dB3'), ('B', 'dB2'), ('B', 'dA2')):
+        for nl, d in (('A', 'dA2'), ('A', 'dB3'), ('B', 'dB3'), ('B', 'dB2'), ('B', 'dA2'), ('A', 'dE0'), ('C', 'dR0'), ('C', 'dA2')):
             ops.append(('add_domain', nl, d))
         for lab, ty in LABELS.items():
             ar = len(ty)
